@@ -1,6 +1,8 @@
 //! Virtual-scheduler stand-in for `rayon` (verification harness, DESIGN E5).
 //!
-//! Implements exactly the API subset used by dusk-plonk and dusk-bls12_381.
+//! Implements the API subset used by dusk-plonk and dusk-bls12_381 plus the common
+//! indexed adaptors (enumerate / skip / take / step_by / rev / zip / chunks / reduce)
+//! a routine parallelisation patch is likely to reach for.
 //! Nothing runs in parallel: every parallel REGION (a `join`, a `for_each`, a
 //! `collect`, a `sum`, an `all`) materialises its items as a list of tasks and
 //! asks the thread-local controller ([`control`]) in which order to run them
@@ -20,7 +22,7 @@ pub mod prelude {
         FromParallelIterator, IndexedParallelIterator, IntoParallelIterator, IntoParallelRefIterator,
         IntoParallelRefMutIterator, ParallelIterator,
     };
-    pub use crate::slice::ParallelSliceMut;
+    pub use crate::slice::{ParallelSlice, ParallelSliceMut};
 }
 
 use control::Kind;
